@@ -90,6 +90,8 @@ class Contract:
         self.ensures = [(n[len('ensures_'):] or 'post', _plain(getattr(cls, n))) for n in sorted(vars(cls)) if n.startswith('ensures')]
         # raises: list of (ExcClass, when_fn or None, iff)
         self.raises = [(e, _plain(w), iff) for (e, w, iff) in getattr(cls, 'raises', [])]
+        # guards: ensures-name -> predicate over the pre-state; the clauses of that ensures are claimed only where it holds
+        self.guards = {k_: _plain(g_) for k_, g_ in getattr(cls, 'guards', {}).items()}
         self.canaries = list(getattr(cls, 'canaries', []))
         self.cases = getattr(cls, 'cases', None)      # list of (label, condition function over the arguments)
         self.case_chunk = getattr(cls, 'case_chunk', 1)
@@ -139,11 +141,16 @@ class Registry:
         self.invariants = {}
         self.lemmas = {}
         self.axioms = {}
+        self.by_func = {}        # id(function object) -> Contract, for functions reached through tables (opcode handlers)
         self.rec_construct = {}
         self.allowed_roots = ROOTS
         self.resolvers = {}
 
-    def contract_for(self, f):
+    def contract_for(self, f, table_entries=False):
+        if table_entries:
+            c = self.by_func.get(id(f))
+            if c is not None:
+                return c
         q = "%s:%s" % (getattr(f, '__module__', '?'), getattr(f, '__qualname__', '?'))
         return self.contracts.get(q)
 
